@@ -335,6 +335,15 @@ func c10primaries(frames []string, https bool) (out []c10resp) {
 			}
 		}
 	}
+	if len(frames) == 1 && frames[0] == "cl" {
+		// quick tier: the other two framings for the answers that carry a JSON value (a body without an
+		// up-front length is as good a body)
+		for _, fr := range []string{"chunked", "eof"} {
+			for _, b := range []string{"obj0", "objnasty", "arr", "null", "empty"} {
+				out = append(out, c10resp{Status: 200, CT: "json", Body: b, Frame: fr})
+			}
+		}
+	}
 	for _, f := range []string{"stall-pre", "stall-hdr", "stall-body", "close", "close-body", "reset", "tls-stall", "wrong-proto"} {
 		if f == "tls-stall" && !https {
 			continue // without TLS there is no handshake to stall; the same behaviour is stall-pre
@@ -866,6 +875,10 @@ func c10run(k *c10case, sp *c10spec, generous bool) (o c10obs) {
 		if r.err != nil {
 			fail(sp.scanner+":record-and-error:"+k.name(), "both a record and an error (%v)", r.err)
 		}
+	} else if k.Prim.Fault != "" && r.err == nil && r.panic == nil && !hang {
+		// the exchange broke down (stall until the timeout, close, reset, wrong protocol): a probe that fails
+		// returns an error, so that the scan reports the failure once; (nil, nil) means "nothing there"
+		fail(sp.scanner+":no-error-for-fault:"+k.Prim.Fault, "the primary request met the fault %q and Scan returned neither a record nor an error (script %s): the failed probe would leave no trace", k.Prim.Fault, k.name())
 	} else if o.Want == "record" {
 		fail(sp.scanner+":no-record:"+k.name(), "nothing reported for %s although the primary request was answered with %s; err=%v; server log %+v", o.Target, k.Prim, o.Err, o.Requests)
 	}
